@@ -1,9 +1,421 @@
-//! stub — not built yet
+//! C10 — "Every transmitted frame is well-formed, fits the MTU and has a legal source".
+//!
+//! Oracle: `egress/mon.rs`, an independent (no `smoltcp::wire`) validator applied to EVERY buffer
+//! handed to `TxToken::consume` in a designated scenario suite executed on real interfaces:
+//!  (a) `egress/tcpx.rs`: the two-endpoint TCP harness, all executions with <= k deviations, raw
+//!      IP and Ethernet, IPv4 and IPv6, MTU in {protocol minimum, +1, 576/1280, 1500};
+//!  (b) `egress/scen.rs` on `egress/rig.rs`: single-interface scenarios on all three media
+//!      (UDP / ICMP / TCP / ARP / NDISC / SLAAC / MLD / IGMP / DHCP / DNS / raw sockets), the full
+//!      product medium x MTU x checksum capability set x scenario x IP version x variant; the
+//!      device pre-fills transmit buffers with 0xA5 so that bytes smoltcp does not write show;
+//!  (c) `egress/cat.rs`: the replies to the C03 seed / mutant catalogue on the many-socket worlds.
+//! A panic inside `Interface::poll` in (a) or (b) is reported as `C10/panic/<site>` (no inbound
+//! garbage is involved there: the poll dies while producing frames for well-formed traffic).
+
+mod c03;
+mod cat;
+pub mod mon;
+mod rig;
+mod scen;
+mod tcpx;
+
 use crate::core::*;
-pub fn run(_tier: Tier) -> i32 {
-    eprintln!("harness not built yet");
-    2
+use crate::sim::hex;
+use rayon::prelude::*;
+use rig::*;
+use serde_json::{json, Value};
+use smoltcp::phy::Medium;
+use std::collections::{BTreeMap, BTreeSet};
+use tcpx::Agg;
+
+// ------------------------------------------------------------------------------------------
+// part (b) runner
+// ------------------------------------------------------------------------------------------
+
+#[derive(Clone, Copy, Debug)]
+struct Job {
+    medium: Medium,
+    ip_mtu: usize,
+    caps: usize,
+    scen: usize,
+    v6: bool,
+    variant: usize,
 }
-pub fn replay(_art: &serde_json::Value) -> i32 {
-    2
+impl Job {
+    fn to_json(&self, name: &str) -> Value {
+        json!({"part": "iface", "scenario": name, "medium": medium_name(self.medium), "ip_mtu": self.ip_mtu, "caps": self.caps, "v6": self.v6, "variant": self.variant})
+    }
+}
+
+#[derive(Default)]
+struct JobOut {
+    agg: Agg,
+    polls: u64,
+    frames: u64,
+    pending_trains: u64,
+    abandoned_trains: u64,
+    raw_frames: u64,
+    findings: Vec<(String, String)>,
+    machinery: Option<String>,
+    /// digest of everything emitted (determinism re-check)
+    digest: u128,
+}
+
+/// IPv4 scenarios: {68 (RFC 791 minimum), 69, 576, 1500}; IPv6: {1280 (RFC 8200 minimum), 1281, 1500};
+/// IEEE 802.15.4: device MTU 125 and 127
+fn mtus(medium: Medium, v6: bool) -> &'static [usize] {
+    match (medium, v6) {
+        (Medium::Ieee802154, _) => &[125, 127],
+        (_, false) => &[68, 69, 576, 1500],
+        (_, true) => &[1280, 1281, 1500],
+    }
+}
+
+fn jobs() -> Vec<Job> {
+    let sc = scen::scenarios();
+    let mut v = vec![];
+    for medium in [Medium::Ethernet, Medium::Ip, Medium::Ieee802154] {
+        for v6 in [false, true] {
+            for &ip_mtu in mtus(medium, v6) {
+                for caps in 0..CAP_NAMES.len() {
+                    for (si, s) in sc.iter().enumerate() {
+                        for variant in 0..s.variants {
+                            if (s.setup)(medium, v6, variant).is_some() {
+                                v.push(Job { medium, ip_mtu, caps, scen: si, v6, variant });
+                            }
+                        }
+                    }
+                }
+            }
+        }
+    }
+    v
+}
+
+fn run_job(j: &Job, trace: bool) -> (JobOut, Vec<String>) {
+    let sc = scen::scenarios();
+    let s = &sc[j.scen];
+    let mut out = JobOut::default();
+    let Some(tw) = (s.setup)(j.medium, j.v6, j.variant) else {
+        return (out, vec![]);
+    };
+    let cfg = RigCfg { medium: j.medium, ip_mtu: j.ip_mtu, caps: j.caps, slaac: tw.slaac, v4_addr: tw.v4, ll_addr: tw.ll, ula_addr: tw.ula };
+    let r = std::panic::catch_unwind(std::panic::AssertUnwindSafe(|| {
+        let mut rig = Rig::new(cfg);
+        rig.keep_trace = trace;
+        (s.run)(&mut rig, j.v6, j.variant);
+        // leftovers (fragments still queued, delayed ACKs)
+        rig.settle();
+        rig
+    }));
+    let rig = match r {
+        Ok(r) => r,
+        Err(e) => {
+            // smoltcp is only entered under the rig's own catch_unwind, except for socket API
+            // calls and Interface::new: tell the two apart by the panic location
+            let loc = last_panic_loc();
+            let msg = panic_msg(e);
+            if loc.starts_with("/repo/") {
+                out.findings.push((format!("C10/panic/{}", panic_site()), format!("scenario {} on {}: panic outside poll: {} at {}", s.name, cfg.name(), msg, loc)));
+            } else {
+                out.machinery = Some(format!("HARNESS PANIC in scenario {} {:?}: {} at {}", s.name, j, msg, loc));
+            }
+            return (out, vec![]);
+        }
+    };
+    let mut dig = String::new();
+    for rec in &rig.log {
+        out.agg.record(&rec.frame, &rec.verdict);
+        out.frames += 1;
+        if rec.raw {
+            out.raw_frames += 1;
+        }
+        dig.push_str(&hex(&rec.frame));
+        dig.push('|');
+        for f in &rec.verdict.findings {
+            out.findings.push((
+                f.sig(),
+                format!(
+                    "scenario {} (v{}, variant {}) on {}: {} | t={}us frame[{}] {} ({}){}",
+                    s.name,
+                    if j.v6 { 6 } else { 4 },
+                    j.variant,
+                    cfg.name(),
+                    f.detail,
+                    rec.t_us,
+                    rec.frame.len(),
+                    hex(&rec.frame),
+                    rec.verdict.shape,
+                    if rec.raw { " [raw socket]" } else { "" }
+                ),
+            ));
+        }
+    }
+    for (site, msg, loc) in &rig.panics {
+        out.findings.push((format!("C10/panic/{}", site), format!("scenario {} (v{}, variant {}) on {}: Interface::poll panicked while emitting: {} at {}", s.name, if j.v6 { 6 } else { 4 }, j.variant, cfg.name(), msg, loc)));
+    }
+    for h in &rig.hangs {
+        out.findings.push(("C10/hang/device-loop".into(), format!("scenario {} on {}: {}", s.name, cfg.name(), h)));
+    }
+    out.polls = rig.polls;
+    out.pending_trains = rig.mon.pending() as u64;
+    out.abandoned_trains = rig.mon.abandoned;
+    out.digest = fp128(&dig);
+    (out, rig.trace)
+}
+
+// ------------------------------------------------------------------------------------------
+// run
+// ------------------------------------------------------------------------------------------
+
+fn agg_json(a: &Agg) -> Value {
+    json!({
+        "frames_validated": a.frames,
+        "distinct_frame_shapes": a.shapes.len(),
+        "largest_frame": a.max_frame,
+        "per_protocol_class": a.per_class,
+        "datagrams_reassembled_and_validated": a.completed,
+        "not_decodable": a.undecodable,
+    })
+}
+
+pub fn run(tier: Tier) -> i32 {
+    let mut rep = Report::new("C10", tier);
+    let mut all = Agg::default();
+    let mut shapes_total: BTreeSet<String> = BTreeSet::new();
+
+    // ---------------------------------------------------------------- (b) interface scenarios
+    let t0 = std::time::Instant::now();
+    let js = jobs();
+    let outs: Vec<(JobOut, Vec<String>)> = js.par_iter().map(|j| run_job(j, false)).collect();
+    let sc = scen::scenarios();
+    let mut per_medium: BTreeMap<String, Agg> = BTreeMap::new();
+    let mut per_mtu: BTreeMap<String, u64> = BTreeMap::new();
+    let mut per_caps: BTreeMap<String, u64> = BTreeMap::new();
+    let mut per_scen: BTreeMap<String, (u64, u64)> = BTreeMap::new();
+    let mut b_total = Agg::default();
+    let (mut polls, mut pending, mut abandoned, mut raw_frames) = (0u64, 0u64, 0u64, 0u64);
+    let mut silent_jobs = vec![];
+    for (j, (o, _)) in js.iter().zip(outs.iter()) {
+        let name = sc[j.scen].name;
+        if let Some(m) = &o.machinery {
+            rep.machinery_errors.push(m.clone());
+        }
+        for (sig, detail) in &o.findings {
+            rep.violation(sig.clone(), detail.clone(), j.to_json(name));
+        }
+        per_medium.entry(medium_name(j.medium).into()).or_default().merge(&o.agg);
+        *per_mtu.entry(format!("{}/ip-mtu-{}", medium_name(j.medium), j.ip_mtu)).or_insert(0) += o.frames;
+        *per_caps.entry(CAP_NAMES[j.caps].into()).or_insert(0) += o.frames;
+        let e = per_scen.entry(format!("{}/v{}", name, if j.v6 { 6 } else { 4 })).or_insert((0, 0));
+        e.0 += 1;
+        e.1 += o.frames;
+        if o.frames == 0 && j.caps == 0 {
+            silent_jobs.push(format!("{}/v{}/variant{}/{}/mtu{}", name, if j.v6 { 6 } else { 4 }, j.variant, medium_name(j.medium), j.ip_mtu));
+        }
+        b_total.merge(&o.agg);
+        polls += o.polls;
+        pending += o.pending_trains;
+        abandoned += o.abandoned_trains;
+        raw_frames += o.raw_frames;
+    }
+    // determinism: every 8th job is executed again and must emit byte-identical frames
+    let recheck: Vec<usize> = (0..js.len()).filter(|i| i % 8 == 0).collect();
+    let again: Vec<u128> = recheck.par_iter().map(|&i| run_job(&js[i], false).0.digest).collect();
+    let mut validated = 0u64;
+    for (&i, d) in recheck.iter().zip(again) {
+        if d != outs[i].0.digest {
+            rep.machinery_errors.push(format!("NONDETERMINISM: job {:?} emitted different frames on re-execution", js[i]));
+        } else {
+            validated += 1;
+        }
+    }
+    eprintln!("egress (b): {} scenario runs, {} frames, wall {:.1}s", js.len(), b_total.frames, t0.elapsed().as_secs_f64());
+    rep.add_count("states", js.len() as u64);
+    rep.add_count("transitions", polls);
+    rep.add_count("traces_validated_against_impl", validated);
+    rep.add_count("evaluations", b_total.frames);
+    shapes_total.extend(b_total.shapes.iter().cloned());
+    all.merge(&b_total);
+    rep.cov(
+        "part_b_interface_scenarios",
+        json!({
+            "scenario_runs": js.len(),
+            "polls": polls,
+            "total": agg_json(&b_total),
+            "per_medium": per_medium.iter().map(|(k, v)| (k.clone(), agg_json(v))).collect::<BTreeMap<_, _>>(),
+            "frames_per_medium_and_mtu": per_mtu,
+            "frames_per_checksum_capability_set": per_caps,
+            "per_scenario(runs,frames)": per_scen.iter().map(|(k, v)| (k.clone(), json!([v.0, v.1]))).collect::<BTreeMap<_, _>>(),
+            "frames_tagged_raw_socket(exempt_from_source_rule_only)": raw_frames,
+            "fragment_trains_incomplete_at_end_of_scenario": pending,
+            "fragment_trains_restarted": abandoned,
+            "runs_without_any_frame(default caps)": silent_jobs,
+            "capability_sets": CAP_NAMES,
+        }),
+    );
+    for (shape, fr) in b_total.sample.iter() {
+        rep.samples.push(json!({"part": "iface", "classification": shape, "frame": fr}));
+    }
+
+    // ---------------------------------------------------------------- (a) tcp2
+    let lim = Limits { max_states: 50_000_000, max_wall_s: if tier == Tier::Quick { 60.0 } else { 900.0 } };
+    let mut tcp_parts = BTreeMap::new();
+    for (cfg, k) in tcpx::configs(tier) {
+        let mut samples = vec![];
+        let mut found = vec![];
+        let t0 = std::time::Instant::now();
+        match devbound::<tcpx::TcpEg>("egress-tcp2", &cfg, k, 4000, &lim, &mut found, &mut samples) {
+            Ok(st) => {
+                eprintln!("egress tcp2 cfg={} k<={} runs={} wall={:.1}s", cfg.name, k, st.runs, t0.elapsed().as_secs_f64());
+                rep.absorb(&format!("tcp2 cfg={} k<={}", cfg.name, k), &st);
+                let complete = st.outcomes.iter().filter(|(o, _)| o.starts_with("CLOSED-CLOSED")).map(|(_, n)| *n).sum::<u64>();
+                tcp_parts.insert(cfg.name.to_string(), json!({"runs": st.runs, "runs_completed_both_closed": complete, "k": k}));
+            }
+            Err(e) => rep.machinery_errors.push(format!("egress tcp2 {}: {}", cfg.name, e)),
+        }
+        for f in found {
+            if f.viol.sig.starts_with("MACHINERY") {
+                rep.machinery_errors.push(format!("{}: {}", f.viol.sig, f.viol.detail));
+            } else if f.viol.sig.starts_with("panic/") {
+                rep.violation(format!("C10/{}", f.viol.sig), f.viol.detail.clone(), f.replay.clone());
+            } else {
+                rep.found.push(f);
+            }
+        }
+    }
+    let tcp_agg = std::mem::take(&mut *tcpx::TCP_AGG.lock().unwrap());
+    let mut a_total = Agg::default();
+    let mut per_cfg = BTreeMap::new();
+    for (name, a) in &tcp_agg {
+        a_total.merge(a);
+        let mut o = agg_json(a);
+        if let Some(p) = tcp_parts.get(name) {
+            o["exploration"] = p.clone();
+        }
+        per_cfg.insert(name.clone(), o);
+    }
+    shapes_total.extend(a_total.shapes.iter().cloned());
+    rep.add_count("evaluations", a_total.frames);
+    all.merge(&a_total);
+    rep.cov("part_a_tcp2", json!({"total": agg_json(&a_total), "per_configuration": per_cfg}));
+    for (shape, fr) in a_total.sample.iter().take(2) {
+        rep.samples.push(json!({"part": "tcp2", "classification": shape, "frame": fr}));
+    }
+
+    // ---------------------------------------------------------------- (c) C03 catalogue replies
+    let t0 = std::time::Instant::now();
+    let cat = cat::run(tier);
+    let mut c_total = Agg::default();
+    let mut per_world = BTreeMap::new();
+    for (name, o) in &cat {
+        for m in &o.machinery {
+            rep.machinery_errors.push(m.clone());
+        }
+        for (sig, (n, detail, replay)) in &o.findings {
+            rep.violation(sig.clone(), format!("{} [{} emitted frames with this verdict in world {}]", detail, n, name), replay.clone());
+        }
+        c_total.merge(&o.agg);
+        rep.add_count("states", o.replied);
+        rep.add_count("transitions", o.injected);
+        let mut j = agg_json(&o.agg);
+        j["seeds"] = json!(o.seeds);
+        j["units"] = json!(o.units);
+        j["frames_injected"] = json!(o.injected);
+        j["injections_with_checksum_fixup"] = json!(o.with_fixup);
+        j["injections_that_elicited_frames"] = json!(o.replied);
+        j["polls_that_panicked_or_hung(C03's verdict, not reported here)"] = json!(o.polls_that_panicked);
+        j["fragment_trains_incomplete"] = json!(o.pending_trains);
+        per_world.insert(name.clone(), j);
+    }
+    eprintln!("egress (c): {} reply frames validated, wall {:.1}s", c_total.frames, t0.elapsed().as_secs_f64());
+    shapes_total.extend(c_total.shapes.iter().cloned());
+    rep.add_count("evaluations", c_total.frames);
+    all.merge(&c_total);
+    rep.cov("part_c_replies_to_C03_catalogue", json!({"total": agg_json(&c_total), "per_world": per_world}));
+    for (shape, fr) in c_total.sample.iter().take(2) {
+        rep.samples.push(json!({"part": "catalogue", "classification": shape, "frame": fr}));
+    }
+
+    rep.add_count("distinct_nontrivial", shapes_total.len() as u64);
+    rep.cov("frames_validated_total", json!(all.frames));
+    rep.cov("distinct_frame_shapes_total", json!(shapes_total.len()));
+    rep.cov("frames_per_protocol_class_total", json!(all.per_class));
+    rep.cov(
+        "rule",
+        json!("every buffer passed to TxToken::consume in (a) all tcp2 executions with <= k deviations per configuration, (b) the full product medium x MTU x checksum-capability set x scenario x IP version x variant of scripted single-interface scenarios, (c) one fresh many-socket world per seed / truncation / single-byte mutant of the C03 catalogue, is validated by the independent EgressMonitor. states = scenario runs + distinct tcp2 states + injections that elicited frames; transitions = polls + tcp2 events + injected frames; evaluations = frames validated; distinct_nontrivial = distinct frame shapes (protocol class + length class + flags/options)"),
+    );
+    rep.assumptions.push("MTU sets: IPv4 {68, 69, 576, 1500}, IPv6 {1280, 1281, 1500} (IP MTU; Ethernet device MTU = IP MTU + 14), IEEE 802.15.4 device MTU {125, 127}; IPv6 scenarios are not run below 1280 (outside the quantified domain)".into());
+    rep.assumptions.push("checksum capability sets: default, each of ipv4/udp/tcp/icmpv4/icmpv6 with tx off (Checksum::Rx) one at a time, all five off; a checksum is only asserted when smoltcp is the one computing it; IGMP has no capability and is always asserted".into());
+    rep.assumptions.push("own addresses at emission time = union of Interface::ip_addrs() before and after the poll that emitted the frame; frames whose (src, dst, protocol) equals a packet the harness pushed through a raw socket are exempt from the source rule only".into());
+    rep.assumptions.push("tcp2: k<=1 (quick) / k<=2 (thorough) deviations; catalogue: seeds + truncations + boundary-value (quick) / all-value (thorough) single-byte mutants of the first 64 (quick) / 96 (thorough) octets, raw and with checksum fix-up; panics on received garbage in part (c) are C03's verdict and only counted here".into());
+    rep.assumptions.push("trusted: the independent parser (egress/mon.rs), the RFC 1071 reference sum, the stimulus builders of the C03 harness".into());
+    rep.finish()
+}
+
+// ------------------------------------------------------------------------------------------
+// replay
+// ------------------------------------------------------------------------------------------
+
+pub fn replay(art: &Value) -> i32 {
+    let r = &art["replay"];
+    if r["harness"].as_str() == Some("egress-tcp2") {
+        let cfgs = r["config"].as_str().unwrap_or("");
+        return match tcpx::cfg_by_debug(cfgs) {
+            Some(c) => replay_artifact::<tcpx::TcpEg>(&c, art),
+            None => {
+                eprintln!("unknown tcp2 configuration in artefact");
+                2
+            }
+        };
+    }
+    match r["part"].as_str() {
+        Some("catalogue") => cat::replay(art),
+        Some("iface") => {
+            let sc = scen::scenarios();
+            let name = r["scenario"].as_str().unwrap_or("");
+            let Some(si) = sc.iter().position(|s| s.name == name) else {
+                eprintln!("unknown scenario {}", name);
+                return 2;
+            };
+            let Some(medium) = medium_from(r["medium"].as_str().unwrap_or("")) else {
+                eprintln!("unknown medium");
+                return 2;
+            };
+            let j = Job {
+                medium,
+                ip_mtu: r["ip_mtu"].as_u64().unwrap_or(1500) as usize,
+                caps: (r["caps"].as_u64().unwrap_or(0) as usize).min(CAP_NAMES.len() - 1),
+                scen: si,
+                v6: r["v6"].as_bool().unwrap_or(false),
+                variant: r["variant"].as_u64().unwrap_or(0) as usize,
+            };
+            println!("scenario {} v{} variant {} on {}/ip-mtu {}/{}", name, if j.v6 { 6 } else { 4 }, j.variant, medium_name(medium), j.ip_mtu, CAP_NAMES[j.caps]);
+            let (o, trace) = run_job(&j, true);
+            for l in trace {
+                println!("  {}", l);
+            }
+            if let Some(m) = o.machinery {
+                eprintln!("MACHINERY ERROR: {}", m);
+                return 2;
+            }
+            let want = art["signature"].as_str().unwrap_or("");
+            let mut seen = BTreeSet::new();
+            for (s, d) in &o.findings {
+                if seen.insert(s.clone()) {
+                    println!("violation: {}{} :: {}", s, if s == want { " (the recorded signature)" } else { "" }, d);
+                }
+            }
+            if seen.is_empty() {
+                println!("no violation on replay");
+                0
+            } else {
+                1
+            }
+        }
+        _ => {
+            eprintln!("artefact has no known replay part");
+            2
+        }
+    }
 }
